@@ -11,9 +11,17 @@
    Imported facts about floats: f64_of_bits (bits_of_f64 v) = v and bits_of_f64 v < 2^64
    (Codec/VarfloatProofs.v), rnd64 (f2q x) = f2q x (Base/F64Proofs.v). *)
 From Coq Require Import Bool NArith ZArith List Lia Permutation ZifyN ZifyNat ZifyBool.
-From SK Require Import Base.Prelude Base.F64 Codec.Codec Spec.Bins Spec.BinsProofs Wire.Proto.
-From SK Require Codec.CodecProofs Codec.Varfloat Codec.VarfloatProofs.
-From SK Require Store.Dense Store.DenseProofs.
+From SK Require Import Base.Prelude.
+From SK Require Import Base.F64.
+From SK Require Import Codec.Codec.
+From SK Require Import Spec.Bins.
+From SK Require Import Spec.BinsProofs.
+From SK Require Import Wire.Proto.
+From SK Require Codec.CodecProofs.
+From SK Require Codec.Varfloat.
+From SK Require Codec.VarfloatProofs.
+From SK Require Store.Dense.
+From SK Require Store.DenseProofs.
 From SK Require Base.F64Proofs.
 Import ListNotations.
 Local Open Scope Z_scope.
